@@ -910,7 +910,27 @@ Lemma c15_only_requests_redirect_lemma w a O loc :
 Proof.
   intros Hr. destruct a as [req|p|p|p pw|p|u rm|b k v|ck b j].
   1:{ exists req. split; [reflexivity|]. apply (c15_step_redirects_local_lemma w req O loc Hr). }
-  1-5: exfalso; unfold step in Hr;
+  1: exfalso; unfold step in Hr;
+       match type of Hr with context [admin C cfg O ?a ?h0] =>
+         pose proof (admin_writes_nothing O a h0) as Ha; destruct (admin C cfg O a h0) as [r h] end;
+       cbn [snd] in Hr; specialize (Ha _ _ eq_refl (outP_init _ _ _));
+       exact (outP_redirects (fun _ => False) r h loc (fun wr Hw => match Ha wr Hw with end) Hr).
+  1: exfalso; unfold step in Hr;
+       match type of Hr with context [admin C cfg O ?a ?h0] =>
+         pose proof (admin_writes_nothing O a h0) as Ha; destruct (admin C cfg O a h0) as [r h] end;
+       cbn [snd] in Hr; specialize (Ha _ _ eq_refl (outP_init _ _ _));
+       exact (outP_redirects (fun _ => False) r h loc (fun wr Hw => match Ha wr Hw with end) Hr).
+  1: exfalso; unfold step in Hr;
+       match type of Hr with context [admin C cfg O ?a ?h0] =>
+         pose proof (admin_writes_nothing O a h0) as Ha; destruct (admin C cfg O a h0) as [r h] end;
+       cbn [snd] in Hr; specialize (Ha _ _ eq_refl (outP_init _ _ _));
+       exact (outP_redirects (fun _ => False) r h loc (fun wr Hw => match Ha wr Hw with end) Hr).
+  1: exfalso; unfold step in Hr;
+       match type of Hr with context [admin C cfg O ?a ?h0] =>
+         pose proof (admin_writes_nothing O a h0) as Ha; destruct (admin C cfg O a h0) as [r h] end;
+       cbn [snd] in Hr; specialize (Ha _ _ eq_refl (outP_init _ _ _));
+       exact (outP_redirects (fun _ => False) r h loc (fun wr Hw => match Ha wr Hw with end) Hr).
+  1: exfalso; unfold step in Hr;
        match type of Hr with context [admin C cfg O ?a ?h0] =>
          pose proof (admin_writes_nothing O a h0) as Ha; destruct (admin C cfg O a h0) as [r h] end;
        cbn [snd] in Hr; specialize (Ha _ _ eq_refl (outP_init _ _ _));
